@@ -193,8 +193,51 @@ func registerK8sIntrinsics(e *Engine) {
 		_ = t
 		return tuple{&cell, iface{}}
 	})
+	// csaupgrade works on structured-merge-diff field sets. Its contract as far as callers can see: no legacy
+	// client-side-apply manager entry (operation Update, one of the given manager names) => no patch; otherwise a JSON
+	// patch of metadata.managedFields.
 	e.reg("k8s.io/client-go/util/csaupgrade.UpgradeManagedFieldsPatch", func(fr *frame, args []value) value {
-		return tuple{[]value(nil), iface{}}
+		i := fr.i
+		legacy := false
+		if it, ok := args[0].(iface); ok && it.t != nil {
+			if p, ok := it.v.(*value); ok && p != nil {
+				if st, ok := (*p).(structure); ok && len(st) == 1 {
+					if root, ok := st[0].(*gomap); ok && root != nil {
+						if mdv, ok := root.get("metadata"); ok {
+							if md, ok := mdv.(iface).v.(*gomap); ok && md != nil {
+								if mfv, ok := md.get("managedFields"); ok {
+									if list, ok := mfv.(iface).v.([]value); ok {
+										for _, ev := range list {
+											em, _ := ev.(iface).v.(*gomap)
+											if em == nil {
+												continue
+											}
+											op, _ := em.get("operation")
+											mg, _ := em.get("manager")
+											opS, _ := op.(iface).v.(string)
+											mgS, _ := mg.(iface).v.(string)
+											if opS == "Update" && (mgS == "package-operator-manager" || mgS == "package-operator" || mgS == "remote-phase-manger") {
+												legacy = true
+											}
+										}
+									}
+								}
+							}
+						}
+					}
+				}
+			}
+		}
+		_ = i
+		if !legacy {
+			return tuple{[]value(nil), iface{}}
+		}
+		text := `[{"op":"replace","path":"/metadata/managedFields","value":[]}]`
+		out := make([]value, len(text))
+		for k := range text {
+			out[k] = text[k]
+		}
+		return tuple{out, iface{}}
 	})
 	// content hashes (spew + reflection): modelled as a function of the structural rendering of the arguments, so
 	// equal arguments give equal results; the quality of the real hash is outside every claim
